@@ -62,6 +62,7 @@ def main():
     d = tempfile.mkdtemp(prefix="vmon-lines-")
     hits = {}
     per_prop = {}
+    branches = {}
     if "--load-hits" in sys.argv:
         raw = json.load(open(sys.argv[sys.argv.index("--load-hits") + 1]))
         per_prop = {rel: {p: set(v) for p, v in pp.items()} for rel, pp in raw.items()}
@@ -70,6 +71,8 @@ def main():
     try:
         for p in props:
             env = dict(os.environ, VMON_LINES_DIR=d, OSYRIS_SRC=src)
+            if "--branches" in sys.argv:
+                env["VMON_BRANCHES"] = "1"
             r = subprocess.run([os.path.join(VERIF, "check"), p, "--tier", tier, "--no-evidence"], cwd=VERIF, env=env,
                                capture_output=True, text=True)
             last = r.stdout.strip().splitlines()[-1] if r.stdout.strip() else r.stderr[-200:]
@@ -77,7 +80,11 @@ def main():
             for f in os.listdir(d):
                 if not f.startswith(p + "-"):
                     continue
-                for rel, lns in json.load(open(os.path.join(d, f))).items():
+                blob = json.load(open(os.path.join(d, f)))
+                for rel, dd in blob.pop("__branches__", {}).items():
+                    for ln, outs in dd.items():
+                        branches.setdefault(rel, {}).setdefault(ln, set()).update(outs)
+                for rel, lns in blob.items():
                     hits.setdefault(rel, set()).update(lns)
                     per_prop.setdefault(rel, {}).setdefault(p, set()).update(lns)
     finally:
@@ -106,6 +113,22 @@ def main():
                   + (f"; numba-compiled: {', '.join(sorted(jitted))}" if jitted else ""))
             for m in summary[rel]["not_executed"]:
                 print(f"   {m['line']:5d}  {m['text']}")
+            if rel in branches:
+                one_sided = []
+                for ln, outs in sorted(branches[rel].items(), key=lambda kv: int(kv[0]) if kv[0].isdigit() else 0):
+                    by_src = {}
+                    for o in outs:
+                        a, _, b = o.partition("->")
+                        by_src.setdefault(a, set()).add(b)
+                    txt = text[int(ln) - 1].strip() if ln.isdigit() else ""
+                    conditional = txt.startswith(("if ", "elif ", "while ", "assert ")) or " if " in txt or " and " in txt or " or " in txt
+                    if any(len(v) < 2 for v in by_src.values()) and ln.isdigit() and conditional:
+                        one_sided.append({"line": int(ln), "text": text[int(ln) - 1].strip()[:110],
+                                          "jumps": {a: sorted(v) for a, v in by_src.items()}})
+                summary[rel]["one_sided_branches"] = one_sided
+                print(f"   -- conditional jumps seen with one outcome only: {len(one_sided)}")
+                for m in one_sided:
+                    print(f"   {m['line']:5d}? {m['text']}    {m['jumps']}")
     if "--write" in sys.argv:
         sys.path.insert(0, VERIF)
         from vmon import boot
